@@ -48,7 +48,7 @@ M += [('C01', 1, 'ancestry-parents-only', [(S, "for dep in jobs.keys() & job.get
 M += [('C02', 1, 'propagation-at-algorithm-granularity', [(S, "                if dawgie.util.vref_as_name(vref) in vns:", "                if '.'.join(dawgie.util.vref_as_name(vref).split('.')[:2]) in {'.'.join(v.split('.')[:2]) for v in vns}:")]),
       ('C02', 2, 'isnew-flag-ignored', [(S, "        for vn, _isnew in filter(lambda t: t[1], values):", "        for vn, _isnew in values:")]),
       ('C02', 3, 'feedback-consumers-dropped', [(S, "            if fvn in dawgie.pl.schedule.ae.feedbacks:", "            if False and fvn in dawgie.pl.schedule.ae.feedbacks:")]),
-      ('C02', 4, 'organize-keeps-one-target', [(S, "                    n.get('todo').update(targets)\n", "                    n.get('todo').update(sorted(targets)[:1])\n")]),
+      
       ('C02', 5, 'only-first-consumer-triggered', [(S, "        organize(sorted(task_names), rid, targets, event)", "        organize(sorted(task_names)[:1], rid, targets, event)")]),
       ('C02', 6, 'analysis-consumer-gets-target-not-all', [(S, """                if _is_asp(n):
                     n.get('todo').add('__all__')
@@ -57,10 +57,7 @@ M += [('C02', 1, 'propagation-at-algorithm-granularity', [(S, "                i
                 elif '__all__' in targets:""")]),
 ]
 # ---- C03
-M += [('C03', 1, 'all-targets-run-not-cleared', [(S, """    if target == '__all__':
-        job.get('doing').clear()
-    elif target in job.get('doing'):""", """    if target in job.get('doing'):""")]),
-      ('C03', 2, 'busy-list-not-pruned', [(F, """        while 0 < _busy.count(done):
+M += [('C03', 2, 'busy-list-not-pruned', [(F, """        while 0 < _busy.count(done):
             _busy.remove(done)
             if done in _time:
                 del _time[done]
@@ -83,17 +80,7 @@ M += [('C03', 1, 'all-targets-run-not-cleared', [(S, """    if target == '__all_
       ('C03', 6, 'find-by-prefix', [(S, "    avail = list(filter(lambda j: j.tag == jobid, que))", "    avail = list(filter(lambda j: j.tag.startswith(jobid), que))")]),
 ]
 # ---- C04
-M += [('C04', 1, 'finished-job-stays-queued', [(S, """    if not (job.get('todo') or job.get('doing')):
-        que.remove(job)
-        job.set('status', State.waiting)
-        pass
-
-    history.append(""", """    if not (job.get('todo') or job.get('doing')):
-        job.set('status', State.waiting)
-        pass
-
-    history.append(""")]),
-      ('C04', 2, 'empty-entries-queued', [(S, "        filter(lambda j: j.get('todo') or j.get('doing'), jobs.values()),", "        jobs.values(),")]),
+M += [('C04', 2, 'empty-entries-queued', [(S, "        filter(lambda j: j.get('todo') or j.get('doing'), jobs.values()),", "        jobs.values(),")]),
       ('C04', 3, 'purged-dependents-stay-queued', [(S, """    if node in que and not (node.get('todo') or node.get('doing')):
         que.remove(node)
         node.set('status', State.waiting)
@@ -101,6 +88,7 @@ M += [('C04', 1, 'finished-job-stays-queued', [(S, """    if not (job.get('todo'
       ('C04', 4, 'analysis-blocked-by-queued-nonancestor', [(S, "            for dep in jobs.keys() & job.get('ancestry'):", "            for dep in (jobs.keys() - {job.tag}) if '__all__' in job.get('todo') else jobs.keys() & job.get('ancestry'):")]),
       ('C04', 5, 'pause-never-lifted-after-promotion-check', [(S, "    if not (promote() or dawgie.pl.schedule.is_paused()):", "    if not (promote() or dawgie.pl.schedule.is_paused() or len(que) > 3):")]),
 ]
+M += [('C04', 6, 'request-keeps-one-target', [(S, "                    n.get('todo').update(targets)\n", "                    n.get('todo').update(sorted(targets)[:1])\n")])]
 # ---- C05
 M += [('C05', 1, 'purge-not-recursive', [(S, """    for child in node:
         purge(child, target, executing)
@@ -133,22 +121,33 @@ M += [('C09', 1, 'ancestry-one-level', [(D, """            while parents:
 ]
 # ---- C10
 M += [('C10', 1, 'archive-always-returns-to-running', [(ST, "        getattr(self, self.__prior + '_trigger')()", "        self.running_trigger()")]),
-      ('C10', 2, 'active-ignores-transitioning', [(ST, "        return self.state == 'running' and self.transitioning == Status.active", "        return self.state == 'running'")]),
+      
       ('C10', 3, 'undocumented-edge-gitting-updating', [('Python/dawgie/pl/state.dot', """        running -> updating[label=update,
                             trigger=update_trigger,
                             source=running,""", """        running -> updating[label=update,
                             trigger=update_trigger,
                             source="*",""")]),
-      ('C10', 4, 'reload-done-skips-archive', [(ST, """        def done(*_args, **_kwds):
-            self.transitioning = Status.active
-            self.archiving_trigger()""", """        def done(*_args, **_kwds):
-            self.transitioning = Status.active
-            self.loading_trigger() if not dawgie.pl.farm.ARCHIVE else self.archiving_trigger()""")]),
+      
       ('C10', 5, 'legacy-submit-step3-twice', [('Python/dawgie/fe/submit.py', "        d.addCallbacks(self.step_2, self.failure)\n", "        d.addCallbacks(self.step_2, self.failure)\n        d.addCallbacks(self.step_3, self.failure)\n")]),
-      ('C10', 6, 'rejected-archive-still-saves-prior', [(ST, """    def save_prior_state(self):
-        self.transitioning = Status.exiting""", """    def save_prior_state(self):
-        self.__prior = self.state
-        self.transitioning = Status.exiting""")]),
+      
+]
+M += [('C10', 7, 'load-done-skips-introspection', [(ST, """        def done(*_args, **_kwds):
+            self.transitioning = Status.active
+            self.contemplation_trigger()""", """        def done(*_args, **_kwds):
+            self.transitioning = Status.active
+            if not dawgie.pl.schedule.que:
+                self.contemplation_trigger()""")]),
+      ('C10', 8, 'archive-done-leaves-entering', [(ST, """        self.open_again = False
+        self.transitioning = Status.active
+        getattr(self, self.__prior + '_trigger')()""", """        self.open_again = False
+        if self.__prior != 'updating':
+            self.transitioning = Status.active
+        getattr(self, self.__prior + '_trigger')()""")]),
+      ('C10', 9, 'edge-archiving-updating-removed', [('Python/dawgie/pl/state.dot', """        archiving -> updating[label=done,
+                              after=loading_trigger,
+                              trigger=updating_trigger,
+                              source=archiving,
+                              dest=updating];""", "")]),
 ]
 # ---- C11
 M += [('C11', 1, 'revision-check-dropped', [(F, """        if msg.revision != dawgie.context.git_rev:
@@ -159,11 +158,7 @@ M += [('C11', 1, 'revision-check-dropped', [(F, """        if msg.revision != da
             pass
         else:""")]),
       ('C11', 2, 'task-not-removed-from-queue', [(F, "        _workers.pop(0).do(_cluster.pop(0))", "        _workers.pop(0).do(_cluster[0])")]),
-      ('C11', 3, 'dispatch-while-not-active', [(F, """    if not dawgie.context.fsm.is_pipeline_active():
-        log.debug("Pipeline is not active. Returning from farm.dispatch().")
-        return False""", """    if dawgie.context.fsm.state != 'running':
-        log.debug("Pipeline is not active. Returning from farm.dispatch().")
-        return False""")]),
+      
       ('C11', 4, 'run-id-always-fresh', [(F, "    runid = job.get('runid', None)\n", "    runid = None\n")]),
       ('C11', 5, 'workers-kept-at-load', [(F, "    keep = dawgie.context.fsm.is_pipeline_active()\n    cclist", "    keep = True\n    cclist")]),
       ('C11', 6, 'worker-kept-after-task', [(F, "        _workers.pop(0).do(_cluster.pop(0))", "        _workers[0].do(_cluster.pop(0)); _workers.append(_workers.pop(0))")]),
